@@ -98,8 +98,9 @@ fn main() -> Result<()> {
             let watch_option = arg_matches.is_present(cli::arg::WATCH).into();
             let termination_events = terminate_on_ctrlc()?;
 
-            let (target_actor_output_sender, target_actor_output_events) =
-                channel::bounded(crate::DEFAULT_CHANNEL_CAP);
+            // Unbounded: target actors must never block while sending, or they stop draining their own
+            // inbox, which in turn blocks the loop that reads this channel (deadlock on wide graphs)
+            let (target_actor_output_sender, target_actor_output_events) = channel::unbounded();
             let mut target_actors =
                 TargetActors::new(targets, target_actor_output_sender, watch_option);
 
